@@ -743,6 +743,7 @@ fn linearizable(
 fn prefix_content(spec: &SchedSpec, key_len: usize) -> (Content, RefStore) {
     let mut m = RefStore::fresh(spec.wcfg.allow_duplicates);
     m.max_data = spec.wcfg.max_data_in_blob;
+    m.max_size = spec.wcfg.max_blob_size;
     for (i, op) in spec.prefix.iter().enumerate() {
         let tag = match op {
             Op::Write { k, ts, size, .. } => value_tag(&value_bytes(&format!("w{}k{}t{}", i, k, ts), *size as usize)),
